@@ -1,7 +1,7 @@
 """C13 - smallest adequate symbol: QR version = min{v : fits} from the standard's formulae (every capacity boundary,
 forced versions used or refused, > version 40 refused).  Data Matrix size choice: see dmlib / Trace_DM (added by c08)."""
 import random
-import vlib, qrlib
+import vlib, qrlib, dmlib
 
 MODES = ["num", "alnum", "byte", "kanji"]
 CHAR = {"num": [55], "alnum": [ord("K")], "byte": [ord("a")], "kanji": list("亜".encode("utf-8"))}
@@ -41,12 +41,36 @@ def qr_events(ctx, g):
     return ev
 
 
+def dm_events(ctx):
+    """Data Matrix symbol choice: SymbolInfo_Lookup(n, shape, min, max) must be the first admissible size in capacity order"""
+    rng = random.Random(ctx.seed * 7 + 2)
+    dims = [(w, h) for (h, w, n) in dmlib.SIZES]
+    pairs = [((), ())] + [((), d) for d in dims] + [(d, ()) for d in dims[::3]]
+    for _ in range(40 if ctx.quick else 300):
+        a, b = rng.choice(dims), rng.choice(dims)
+        pairs.append((a, b))
+    pairs += [((1, 1), (200, 200)), ((), (7, 7)), ((145, 145), ()), ((), (17, 9)), ((), (18, 7)), ((20, 10), (40, 12))]
+    ns = sorted({n + d for (_, _, n) in dmlib.SIZES for d in (-1, 0, 1)} | {1, 2, 1559, 1560, 3000})
+    if not ctx.quick:
+        ns = list(range(1, 1561))
+    ev = []
+    for pi, (mn, mx) in enumerate(pairs):
+        for shape in (0, 1, 2):
+            for n in (ns if (ctx.quick or pi < 40) else ns[pi % 7::7]):
+                if n >= 1:
+                    ev.append(dict(op="lookup", n=n, shape=shape, mn=list(mn), mx=list(mx)))
+    return ev
+
+
 def run(ctx):
     # design level: the two-pass recommendation equals the definitional minimum for every length (MC_QR c13 cases)
     res = vlib.run_tlc(ctx, "MC_QR", "MC_QR_c13" if ctx.quick else "MC_QR_c13_thorough", workers=vlib.NCPU, timeout=3000)
     ctx.note("MC_QR (C13 cases): %d states: Recommend(two-pass) = MinVersion for every character count 0..cap(40)+3" % res.generated)
     g = qrlib.gen_caps(ctx)
     qrlib.judge(ctx, qr_events(ctx, g), "C13 QR version choice")
+    res = vlib.run_tlc(ctx, "MC_DM", "MC_DM", workers=vlib.NCPU, timeout=1500)
+    ctx.note("MC_DM: %d states: Table 7 laws, capacity order is strictly increasing, 144x144 holds 1558 codewords" % res.generated)
+    dmlib.judge(ctx, dm_events(ctx), "C13 Data Matrix symbol choice")
     ctx.exhaustive = not ctx.quick
     return vlib.finish(ctx, rule="one case = one encode request (mode, length, level, forced version); quick: every capacity boundary "
                        "cap(v), cap(v)+1 of all 160 (version, level) pairs x 4 modes, free and forced; thorough adds every length "
@@ -55,4 +79,7 @@ def run(ctx):
                        trusted=["TLC", "spec/QRTables.tla (capacity formulae and Table 9 of ISO/IEC 18004, self-checked by MC_QR)"])
 
 
-replay = qrlib.replay
+def replay(ctx, path):
+    import json
+    r = json.load(open(path))
+    return (dmlib if r["inputs"][0].get("op") == "lookup" else qrlib).replay(ctx, path)
